@@ -520,9 +520,13 @@ func (m *Muxer) createFirstSegment(nextDTS time.Duration, nextNTP time.Time) err
 	m.mutex.Lock()
 	defer m.mutex.Unlock()
 
-	for _, stream := range m.streams {
+	for i, stream := range m.streams {
 		err := stream.createFirstSegment(nextDTS, nextNTP)
 		if err != nil {
+			// do not leave the streams half open: the next write starts again from all of them
+			for _, prev := range m.streams[:i] {
+				prev.discardFirstSegment()
+			}
 			return err
 		}
 	}
